@@ -35,39 +35,67 @@ pub use crate::{
     rng::MersenneTwister,
 };
 
+/// Verification hook: a thread-local log of every libm call made by the degree
+/// helpers, as (function id, argument bits, result bits).
+#[cfg(scad_tree_verif)]
+pub mod verif {
+    thread_local! {
+        static LOG: std::cell::RefCell<Vec<(u8, u64, u64)>> = std::cell::RefCell::new(Vec::new());
+    }
+    pub fn log(id: u8, arg: f64, res: f64) -> f64 {
+        LOG.with(|l| l.borrow_mut().push((id, arg.to_bits(), res.to_bits())));
+        res
+    }
+    pub fn take() -> Vec<(u8, u64, u64)> {
+        LOG.with(|l| std::mem::take(&mut *l.borrow_mut()))
+    }
+}
+
 /// Returns the sine of degrees
 #[inline(always)]
 pub fn dsin(degrees: f64) -> f64 {
+    #[cfg(scad_tree_verif)]
+    verif::log(0, degrees.to_radians(), degrees.to_radians().sin());
     degrees.to_radians().sin()
 }
 
 /// Returns the cosine of degrees
 #[inline(always)]
 pub fn dcos(degrees: f64) -> f64 {
+    #[cfg(scad_tree_verif)]
+    verif::log(1, degrees.to_radians(), degrees.to_radians().cos());
     degrees.to_radians().cos()
 }
 
 /// Returns the tangent of degrees
 #[inline(always)]
 pub fn dtan(degrees: f64) -> f64 {
+    #[cfg(scad_tree_verif)]
+    verif::log(2, degrees.to_radians(), degrees.to_radians().tan());
     degrees.to_radians().tan()
 }
 
 /// Returns the arc-sine of degrees
 #[inline(always)]
 pub fn dasin(degrees: f64) -> f64 {
+    #[cfg(scad_tree_verif)]
+    verif::log(3, degrees, degrees.asin());
     degrees.asin().to_degrees()
 }
 
 /// Returns the arc-cosine of degrees
 #[inline(always)]
 pub fn dacos(degrees: f64) -> f64 {
+    #[cfg(scad_tree_verif)]
+    verif::log(4, degrees, degrees.acos());
     degrees.acos().to_degrees()
 }
 
 /// Returns the arc-tangent of degrees
 #[inline(always)]
 pub fn datan(degrees: f64) -> f64 {
+    #[cfg(scad_tree_verif)]
+    verif::log(5, degrees, degrees.atan());
     degrees.atan().to_degrees()
 }
 
